@@ -28,3 +28,17 @@ func (svr *Server) VerifSetPacketIDCounters(v uint32) {
 		atomic.StoreUint32(&svc.pktid, v)
 	}
 }
+
+// VerifSubscribers reports how many subscribers the server's topic tree
+// currently holds for a topic name (connections and in-process subscribers
+// alike), so that the harness can see subscriptions that outlive their
+// connection.
+func (svr *Server) VerifSubscribers(topic string) (int, error) {
+	if svr.topicsMgr == nil {
+		return 0, nil
+	}
+	var subs []interface{}
+	var qoss []byte
+	err := svr.topicsMgr.Subscribers([]byte(topic), 2, &subs, &qoss)
+	return len(subs), err
+}
